@@ -248,7 +248,7 @@ def gen_matchers(r, good, bad, fail):
         elif k == "type" and TYPES_OF.get(p):
             m = {"kind": "type", "type": TYPES_OF[p], "paths": [p]}
         else:
-            m = {"kind": "custom", "paths": [p], "ret": r.choice(['"<c>"', "7", '{"z":1}'])}
+            m = {"kind": "custom", "paths": [p], "ret": r.choice(['"<c>"', "7", '{"z":1}', "null"])}
         ms.append(m)
     if bm:
         ms.insert(r.below(len(ms) + 1), bm)
